@@ -21,6 +21,9 @@ type Consumer struct {
 	Forward   bool // forward every received value to a private external output with r2owa
 	PadEnd    int  // after the forward
 	OutStall  int  // environment stall on the private output
+	// Sicv3: the consumer takes the offers with sicv3 (acknowledges a valid, measures the gap to the next one)
+	// instead of capturing them with i2rw: transfers are counted, values are not compared. Simulator world.
+	Sicv3 bool `json:",omitempty"`
 }
 
 type Case struct {
@@ -68,10 +71,14 @@ func (c Case) spec() gen.BMSpec {
 	for i, cs := range c.Consumers {
 		var q []string
 		q = append(q, pad(cs.PadBefore)...)
-		q = append(q, "i2rw r0 i0")
+		if cs.Sicv3 {
+			q = append(q, "sicv3 r0 i0")
+		} else {
+			q = append(q, "i2rw r0 i0")
+		}
 		q = append(q, pad(cs.PadAfter)...)
 		m := 0
-		if cs.Forward {
+		if cs.Forward && !cs.Sicv3 {
 			q = append(q, "r2owa r0 o0")
 			q = append(q, pad(cs.PadEnd)...)
 			m = 1
@@ -79,7 +86,7 @@ func (c Case) spec() gen.BMSpec {
 		q = append(q, "j 0")
 		s.Procs = append(s.Procs, gen.ProcSpec{R: 1, N: 1, M: m, O: gen.NeededBits(len(q)), Ops: gen.UsedOps(q), Prog: q})
 		s.Bonds = append(s.Bonds, [2]string{fmt.Sprintf("p%di0", i+1), "p0o0"})
-		if cs.Forward {
+		if cs.Forward && !cs.Sicv3 {
 			s.Bonds = append(s.Bonds, [2]string{fmt.Sprintf("o%d", s.Outputs), fmt.Sprintf("p%do0", i+1)})
 			s.Outputs++
 		}
@@ -103,6 +110,7 @@ func genCase(t *rapid.T) Case {
 			PadEnd:    rapid.IntRange(0, 3).Draw(t, "ce"),
 			OutStall:  rapid.IntRange(0, 3).Draw(t, "stall"),
 		}
+		cs.Sicv3 = rapid.IntRange(0, 5).Draw(t, "sicv3") == 0
 		c.Consumers = append(c.Consumers, cs)
 	}
 	if rapid.Bool().Draw(t, "delays") {
@@ -152,7 +160,7 @@ func prop(c Case) pbt.Outcome {
 	}
 	env := gen.Env{}
 	for _, cs := range c.Consumers {
-		if cs.Forward {
+		if cs.Forward && !cs.Sicv3 {
 			env.OutStall = append(env.OutStall, cs.OutStall)
 		}
 	}
@@ -173,13 +181,14 @@ func prop(c Case) pbt.Outcome {
 	consR := make([]int, len(c.Consumers))
 	for i := range c.Consumers {
 		for j, l := range spec.Procs[i+1].Prog {
-			if strings.HasPrefix(l, "i2rw") {
+			if strings.HasPrefix(l, "i2rw") || strings.HasPrefix(l, "sicv3") {
 				consR[i] = j
 			}
 		}
 	}
 	var sent []uint64
 	recv := make([][]uint64, len(c.Consumers))
+	lastDone := -10 // tick in which the producer last left an r2owa
 	d4, d5 := false, false
 	sameOffer := make([]bool, len(c.Consumers)) // the offer on the consumer's input was captured and valid has not fallen since
 	var fail *pbt.Failure
@@ -187,8 +196,11 @@ func prop(c Case) pbt.Outcome {
 		pp := r.VM.Processors[0]
 		prePcP := int(pp.Pc)
 		// precondition monitors of the recorded findings (state before the step)
-		if _, atW := prodW[prePcP]; atW && pp.DelayCounter == 0 && !pp.OutputsValid[0] && pp.OutputsRecv[0] {
-			d5 = true // r2owa starts while received of the previous transfer is still high
+		if _, atW := prodW[prePcP]; atW && pp.DelayCounter == 0 && !pp.OutputsValid[0] && pp.OutputsRecv[0] && tick-lastDone <= 2 {
+			// r2owa starts while received of the previous transfer is still high: the recorded finding is the
+			// second write arriving before the consumers' received flags had the tick they need to fall; a
+			// received line still high later than that is not the recorded mechanism
+			d5 = true
 		}
 		prePcC := make([]int, len(c.Consumers))
 		for i := range c.Consumers {
@@ -208,12 +220,23 @@ func prop(c Case) pbt.Outcome {
 		for i := range c.Consumers {
 			cp := r.VM.Processors[i+1]
 			if prePcC[i] == consR[i] && int(cp.Pc) == consR[i]+1 {
-				recv[i] = append(recv[i], gen.U64(cp.Registers[0]))
+				v := gen.U64(cp.Registers[0])
+				if c.Consumers[i].Sicv3 {
+					// no value is captured: the transfer counts, its position takes the offered value
+					v = 0
+					if reg, atW := prodW[prePcP]; atW {
+						v = gen.U64(pp.Registers[reg])
+					} else if len(sent) > len(recv[i]) {
+						v = sent[len(recv[i])]
+					}
+				}
+				recv[i] = append(recv[i], v)
 				sameOffer[i] = true
 			}
 		}
 		if reg, atW := prodW[prePcP]; atW && int(pp.Pc) == prePcP+1 {
 			sent = append(sent, gen.U64(pp.Registers[reg]))
+			lastDone = tick
 		}
 		// history invariant
 		offered := sent
@@ -244,7 +267,7 @@ func prop(c Case) pbt.Outcome {
 	if fail == nil {
 		o := 0
 		for i, cs := range c.Consumers {
-			if !cs.Forward {
+			if !cs.Forward || cs.Sicv3 {
 				continue
 			}
 			got := r.Out[o]
@@ -263,6 +286,12 @@ func prop(c Case) pbt.Outcome {
 	}
 	if c.Burst {
 		labels = append(labels, "burst")
+	}
+	for _, cs := range c.Consumers {
+		if cs.Sicv3 {
+			labels = append(labels, "sicv3-consumer")
+			break
+		}
 	}
 	if len(c.Delays) > 0 {
 		labels = append(labels, "delays")
